@@ -427,6 +427,21 @@ func genControl(p *params, prop string, emit func(string, bool)) {
 		base = append(base, "cb:1:2", adv(100))
 		base = append(base, pr.rounds(4)...)
 		emit(scenario(pr, base), false)
+		// two runs with different objects (odd seed: the object has the optional field; even: not), both finished, both
+		// deleted, in either order: each scrub is made from that run's stored object alone
+		for _, seeds := range [][2]int{{5, 4}, {4, 5}, {7, 9}} {
+			two := []string{fmt.Sprintf("tr:1:0:%d", seeds[0]), fmt.Sprintf("tr:2:0:%d", seeds[1])}
+			two = append(two, pr.rounds(3)...)
+			two = append(two, "cb:1:2", "cb:2:2", adv(100))
+			two = append(two, pr.rounds(4)...)
+			two = append(two, "ct:1:2", "ct:2:2") // cancel whatever has not completed (accepted or not)
+			two = append(two, pr.rounds(2)...)
+			two = append(two, "ct:1:3")
+			two = append(two, pr.rounds(3)...)
+			two = append(two, "ct:2:3")
+			two = append(two, pr.rounds(3)...)
+			emit(scenario(pr, two), true)
+		}
 		ctls := []string{"ct:1:0", "ct:1:1", "ct:1:2", "ct:1:3", "ui:1:0", "ui:1:1", "ui:1:2", "ui:1:3", "cb:1:2", "tr:1:0:6"}
 		// one RunStateController used for two or three consecutive changes (ctr = re-use the controller of the previous ct)
 		for pos := 1; pos <= len(base); pos += 2 {
